@@ -20,6 +20,7 @@ import (
 	"os"
 	"os/exec"
 	"path/filepath"
+	"reflect"
 	"regexp"
 	"sort"
 	"strings"
@@ -75,6 +76,25 @@ func c09XMLNoOddDirective(b []byte) bool {
 			r := b[i+2:]
 			if !(bytes.HasPrefix(r, []byte("--")) || bytes.HasPrefix(r, []byte("[CDATA[")) || bytes.HasPrefix(r, []byte("DOCTYPE"))) {
 				return false
+			}
+		}
+	}
+	return true
+}
+
+// encoding/xml reads the pseudo-attributes of `<?xml …?>` with a lenient scan (`version=` followed by white space is simply
+// "no version", the same text respelled `version="x"` is then an unsupported version): an input counts as well-formed only
+// when every processing instruction with target `xml` is a proper XMLDecl / TextDecl (XML 1.0 [23], [77])
+var c09ReXMLDecl = regexp.MustCompile(`^<\?xml(\s+version\s*=\s*("1\.[0-9]+"|'1\.[0-9]+'))?(\s+encoding\s*=\s*("[A-Za-z][A-Za-z0-9._-]*"|'[A-Za-z][A-Za-z0-9._-]*'))?(\s+standalone\s*=\s*("(yes|no)"|'(yes|no)'))?\s*\?>`)
+
+func c09XMLDeclOK(b []byte) bool {
+	for i := 0; i+5 < len(b); i++ {
+		if b[i] == '<' && b[i+1] == '?' && (b[i+2] == 'x' || b[i+2] == 'X') && (b[i+3] == 'm' || b[i+3] == 'M') && (b[i+4] == 'l' || b[i+4] == 'L') {
+			c := b[i+5]
+			if c == ' ' || c == '\t' || c == '\n' || c == '\r' || c == '?' {
+				if !c09ReXMLDecl.Match(b[i:]) {
+					return false
+				}
 			}
 		}
 	}
@@ -262,13 +282,25 @@ func c09Docs(repo string, maxBytes int) []c09Doc {
 
 func init() {
 	register("C09", func(c *Ctx) error {
-		maxB := c.N(120000, 4000000)
+		maxB := 4000000 // every corpus / benchmark document at its real size in both tiers (mutations use documents <= 60 KB)
 		docs := c09Docs(c.Repo, maxB)
 		node, err := c09StartNode()
 		if err != nil {
 			return fmt.Errorf("cannot start node: %v", err)
 		}
 		defer func() { node.in.Close(); node.cmd.Wait() }()
+		if err := c09XmlStages(c); err != nil {
+			return err
+		}
+		if err := c09CssStages(c); err != nil {
+			return err
+		}
+		if err := c09HtmlStages(c); err != nil {
+			return err
+		}
+		if err := c09JsStages(c); err != nil {
+			return err
+		}
 		var pool [][]byte
 		for _, d := range docs {
 			if len(d.data) < 200000 {
@@ -307,6 +339,13 @@ func init() {
 					c.R.ExcludedKnown++ // K-C09-1: truncated JSON `{"k":` is accepted, its output `{"k"` is not
 					return
 				}
+				if d.mt == "text/html" {
+					if id := c09EmbedKnown(d.data); id != "" {
+						c.R.ExcludedKnown++ // an embedded payload minifies to the end tag / comment opener of its host element
+						st.Tag("known=" + id)
+						return
+					}
+				}
 				report("output of a successful pass is rejected by the same minifier", err2.Error())
 				return
 			}
@@ -316,7 +355,7 @@ func init() {
 					report("output is not valid JSON (encoding/json) although the input is", "")
 				}
 			case "text/xml", "image/svg+xml":
-				if c09XMLValid(d.data) && c09XMLNoOddDirective(d.data) && !c09XMLValid(o) {
+				if c09XMLValid(d.data) && c09XMLNoOddDirective(d.data) && c09XMLDeclOK(d.data) && !c09XMLValid(o) {
 					report("output is not well-formed XML (encoding/xml) although the input is", "")
 				}
 			case "text/css":
@@ -327,7 +366,7 @@ func init() {
 				}
 			case "text/html":
 				// only for unmutated documents: a document truncated inside a tag has no well-defined tree to compare with
-				if a, b := c09HTMLCensus(d.data), c09HTMLCensus(o); !mutated && a != b {
+				if a, b := c09HTMLCensus(d.data), c09HTMLCensus(o); !mutated && a != b && c09EmbedKnown(d.data) == "" {
 					report("x/net/html sees a different set of raw-text elements in the output", a+" vs "+b)
 				}
 			case "application/javascript":
@@ -351,6 +390,15 @@ func init() {
 		for _, d := range docs {
 			run(d, mDef, "default", false)
 		}
+		// every document at its real size once more under a random non-default option set
+		for _, d := range docs {
+			r := c.Rng.Fork()
+			m, cfg := c09Options(r)
+			for cfg == "default" {
+				m, cfg = c09Options(r)
+			}
+			run(d, m, cfg, false)
+		}
 		n := c.N(1200, 40000)
 		var small []c09Doc
 		for _, d := range docs {
@@ -369,8 +417,8 @@ func init() {
 			run(d, m, cfg, mutated)
 		}
 		for _, k := range h.Known("C09") {
-			if k.Status != "open" {
-				continue
+			if k.Status != "open" || len(strings.Split(k.ID, "-")) > 3 || k.ReplayStr("mediatype") == "" {
+				continue // K-C09-<slice>-n are replayed by their slice (c09_<slice>.go)
 			}
 			var o1, o2 bytes.Buffer
 			e1 := mDef.Minify(k.ReplayStr("mediatype"), &o1, strings.NewReader(k.ReplayStr("input")))
@@ -379,9 +427,17 @@ func init() {
 			if k.ReplayStr("mediatype") == "text/css" {
 				still = e1 == nil && c09CSSValid([]byte(k.ReplayStr("input"))) && !c09CSSValid(o1.Bytes())
 			}
+			if k.ReplayStr("mediatype") == "text/html" {
+				// the reader finds a different sequence of embedded elements / payloads in the output
+				a, _ := c09ReadEmbedded([]byte(k.ReplayStr("input")))
+				b, _ := c09ReadEmbedded(o1.Bytes())
+				still = e1 == nil && (!reflect.DeepEqual(a.kinds, b.kinds) || c09HTMLCensus([]byte(k.ReplayStr("input"))) != c09HTMLCensus(o1.Bytes()) || len(c09VisibleText([]byte(k.ReplayStr("input")))) != len(c09VisibleText(o1.Bytes())))
+			}
 			c.R.AddKnown(k.ID, still, k.What, fmt.Sprintf("first pass: %q err=%v; second pass: %q err=%v", o1.String(), e1, o2.String(), e2))
 		}
 		st.End()
+		c09JsonStage(c)
+		c09EmbedStage(c, c09Docs(c.Repo, c.N(260000, 4000000)), node, mDef)
 		return nil
 	})
 }
